@@ -71,6 +71,8 @@ pub fn render_trait(name: &str, trait_int: i64, rows: &[Vec<i64>]) -> String {
         // intmode: low 2 bits = int_result attribute; +4 = the method has a default body; +8 = explicit lifetime generics <'a>
         // receiver field: low 2 bits = receiver kind, +4 = #[vtbl_only] (needs a default body: the opaque object does not forward it)
         let vtbl_only = r[0] & 4 != 0;
+        // +8: the method also carries a doc comment and an unrelated attribute (which must not change how its other attributes are read)
+        if r[0] & 8 != 0 { s.push_str("    /// A documented method.\n    #[allow(unused_variables)]\n"); }
         let rk = r[0] & 3;
         let has_default = r[1] & 4 != 0 || vtbl_only;
         let lt = r[1] & 8 != 0 && rk != 2;
